@@ -16,8 +16,15 @@ INLINE_SMALL = (
 )
 
 
+# Entry points of the dispatcher keep their identity as events; every other function of the dispatcher module
+# (helpers a refactoring may extract: free fns, private Node methods, nested fns) is analysed in place.
+TREE_EVENTS = (EXEC, "scpi::tree::Node::run_tokens", "scpi::tree::Node::run")
+
+
 def _inline(n, r):
-    return r in INLINE_SMALL or n in INLINE_SMALL or "Token" in r and r.endswith("PartialEq>::eq")
+    if r in INLINE_SMALL or n in INLINE_SMALL or "Token" in r and r.endswith("PartialEq>::eq"):
+        return True
+    return r.startswith("scpi::tree::") and r not in TREE_EVENTS and not r.startswith(("scpi::tree::prelude", "scpi::tree::command::"))
 
 
 _CACHE = {}
@@ -32,7 +39,8 @@ def prog():
 def engine(extra_models=None, inline=None):
     P = prog()
     u = P.unit("scpi")
-    models = dict(M.STREAM_MODELS)
+    models = dict(M.FOLD_MODELS)
+    models.update(M.STREAM_MODELS)
     if extra_models:
         models.update(extra_models)
     return fdai.Engine(P, u, inline=inline or _inline, models=models, max_paths=3000)
@@ -218,15 +226,34 @@ def run_tokens_table():
         # a leading `:` is followed by the mnemonic that exec consumes
         return [h, "ProgramMnemonic"] if h == "HeaderMnemonicSeparator" else [h]
 
+    # The dispatcher looks at a header mnemonic's text only to tell common commands (leading `*`) from the rest:
+    # the abstract stream carries one representative of each class as a constant, and the test - however it is
+    # spelled (starts_with, first(), indexing, a match) - is decided by constant folding.
+    REPR = {True: b"*CMD", False: b"CMD"}
+
     def one(stream_names):
-        st = fdai.State()
-        M.set_stream(st, [M.item(eng, n) for n in stream_names] + [M.UNKNOWN])
-        node = mk_node(eng, "Branch")
-        selfcell = Cell(node, "self")
-        args = [RefV(selfcell)] + [RefV(Cell(TOP, t), (), True) for t in ("device", "context", "tokens", "response")]
-        st.extra["cells"] = {"self": selfcell}
-        res = eng.run(body, args, st)
-        return [PathInfo(r) for r in res]
+        # positions of mnemonics that head a unit (not preceded by `:`): each is tried as common and as plain
+        heads = [i for i, n in enumerate(stream_names) if n == "ProgramMnemonic" and (i == 0 or stream_names[i - 1] != "HeaderMnemonicSeparator")]
+        out = []
+        for mask in range(1 << len(heads)):
+            common = [bool(mask >> k & 1) for k in range(len(heads))]
+            items = []
+            for i, n in enumerate(stream_names):
+                if i in heads:
+                    items.append(fdai.mk_ok(M.token(eng, n, [RefV(Cell(fdai.BytesV(REPR[common[heads.index(i)]]), "mnemonic"))])))
+                else:
+                    items.append(M.item(eng, n))
+            st = fdai.State()
+            M.set_stream(st, items + [M.UNKNOWN])
+            node = mk_node(eng, "Branch")
+            selfcell = Cell(node, "self")
+            args = [RefV(selfcell)] + [RefV(Cell(TOP, t), (), True) for t in ("device", "context", "tokens", "response")]
+            st.extra["cells"] = {"self": selfcell}
+            for r in eng.run(body, args, st):
+                pi = PathInfo(r)
+                pi.common = common
+                out.append(pi)
+        return out
 
     # first unit: header x post
     for h in hdrs:
@@ -244,7 +271,10 @@ def run_tokens_table():
 
 
 def star_assumption(pi, nth=1):
-    """Truth value assumed for the n-th `starts_with(.., b"*")` test on this path (None if absent)."""
+    """Is the n-th unit-heading mnemonic of the analysed stream a common command (leading `*`)?"""
+    c = getattr(pi, "common", None)
+    if c is not None:
+        return c[nth - 1] if len(c) >= nth else None
     syms = []
     for e in pi.trace:
         if e.kind == "call" and e.name.endswith("starts_with"):
